@@ -167,6 +167,7 @@ def run(model, rep):
     rep.rule('C03.SLOT', 'every expression slot of the grammar x every way an expression mentions names, as a module of its own through minify(rename_locals=True): alpha-equivalent to the original')
     slot_e2e.run(model, rep, 'C03.SLOT', 'rename', 90, 800)
     rename_e2e.idioms(model, rep, 'C03.E2E')
+    rename_e2e.reuse(model, rep, 'C03.E2E')
     forms(model, rep)
     # white-box rules: written against internal functions of the renamer; they widen the inputs covered (synthetic scope worlds, 3200 generated names,
     # every syntactic slot) and are reported as not evaluated when those internals do not exist under their names - E2E / EX above decide the behaviour
